@@ -201,7 +201,38 @@ fn run_inner(trace: &Trace, cfg: &Config) -> Outcome {
         });
     }
     w.out.obs = vec![Vec::new(); trace.clients.len()];
-    let r = w.run();
+    // C07 (e): one manager per thread. A sibling thread looks at *its* thread-local manager before
+    // the run, is parked, and looks again after the run (one thread runs at a time).
+    let sibling = if cfg.props & Prop::C07.bit() != 0 && trace.clients.iter().any(|&m| m == 0) && cfg.solo.is_none() {
+        let (to_sib, sib_rx) = std::sync::mpsc::channel::<()>();
+        let (sib_tx, from_sib) = std::sync::mpsc::channel::<(usize, usize, usize)>();
+        let h = std::thread::spawn(move || {
+            let look = || aws_smt_strings::smt_regular_expressions::verif_with_manager(|m| m.verif_stats());
+            let _ = sib_tx.send(look());
+            let _ = sib_rx.recv();
+            let _ = sib_tx.send(look());
+        });
+        let before = from_sib.recv().ok();
+        Some((to_sib, from_sib, h, before))
+    } else {
+        None
+    };
+    let mut r = w.run();
+    if let Some((to_sib, from_sib, h, before)) = sibling {
+        let _ = to_sib.send(());
+        let after = from_sib.recv().ok();
+        let _ = h.join();
+        if r.is_ok() {
+            w.eval(Prop::C07, "c07.one-manager-per-thread", 0, 0, false);
+            w.step_idx = trace.steps.len().saturating_sub(1);
+            r = w.judge(Prop::C07, "c07.one-manager-per-thread", before.is_some() && before == after, || {
+                format!(
+                    "a parked sibling thread saw its thread-local manager change from {:?} to {:?} (terms, ids, cached derivatives) while this thread used the SMT-LIB wrappers",
+                    before, after
+                )
+            });
+        }
+    }
     match r {
         Ok(()) => {}
         Err(Stop::Violation(v)) => w.out.violation = Some(v),
